@@ -242,6 +242,7 @@ def check_trace(chk, recs, ctxs, label="TraceTimeCorr", max_rejects=4):
     """Validate all records (continuing after rejections) and compare the printed terms."""
     offset = 0
     nrej = 0
+    accepted = []
     todo = list(recs)
     while todo:
         r, rej, printed = validate_records(todo)
@@ -250,6 +251,7 @@ def check_trace(chk, recs, ctxs, label="TraceTimeCorr", max_rejects=4):
         for p in printed:                     # TLC re-evaluates actions when it rebuilds an error trace: dedupe
             byrec.setdefault(p["rec"], p)
         nacc = len(todo) if rej is None else rej[0]
+        accepted += list(range(offset, offset + nacc))
         if sorted(byrec) != list(range(1, nacc + 1)):
             raise MachineryError(f"TraceTimeCorr printed records {sorted(byrec)[:5]}.. but accepted {nacc}")
         for j in range(nacc):
@@ -283,12 +285,13 @@ def check_trace(chk, recs, ctxs, label="TraceTimeCorr", max_rejects=4):
             break
         todo = todo[idx + 1:]
         offset += idx + 1
+    return accepted
 
 
 def corrupt_one_field(chk, recs):
-    """Binding self-test of the trace spec: one observed time-axis entry of one record is changed;
+    """Binding self-test of the trace spec: one observed time-axis entry of one ACCEPTED record is changed;
     TraceTimeCorr must reject exactly that record with clause TimeAxis."""
-    cand = [r for r in recs if r["T"] >= 2 and r["obs"]["rows"] == r["T"]][:3]
+    cand = [r for r in recs if r["T"] >= 2][:3]
     if len(cand) < 3:
         return
     bad = json.loads(json.dumps(cand))
@@ -399,8 +402,8 @@ def run(tier, replay=None):
         rec, ctx = gen_record(rng, api)
         recs.append(rec)
         ctxs.append(ctx)
-    check_trace(chk, recs, ctxs)
-    corrupt_one_field(chk, recs)
+    accepted = check_trace(chk, recs, ctxs)
+    corrupt_one_field(chk, [recs[i] for i in accepted])
     if tier == "thorough" and chk.coverage_actions.get("Acc", 0) == 0:
         raise MachineryError("action Acc has zero coverage: the loop state machine was not exercised")
     chk.samples.append({"trace_record": {k: recs[0][k] for k in ("T", "N", "rank", "dim", "cplx", "ts", "dt", "obs")}})
